@@ -188,11 +188,15 @@ fn check_one(h: &History, c: &Check, initial_poll: Option<Option<u128>>, m: &mut
         }
     }
     // R6: metrics account for exactly the attempts made
+    let mut rt_ns: Vec<u128> = vec![];
     let mut rt: Vec<bool> = vec![];
     let mut rpc: Vec<(u64, bool)> = vec![];
     for i in c.start..c.end {
         match &h[i].kind {
-            Kind::Metric(MetricRec::UpdateCheckResponseTime { successful, .. }) => rt.push(*successful),
+            Kind::Metric(MetricRec::UpdateCheckResponseTime { successful, ns }) => {
+                rt.push(*successful);
+                rt_ns.push(*ns);
+            }
             Kind::Metric(MetricRec::RequestsPerCheck { count, successful }) => rpc.push((*count, *successful)),
             _ => {}
         }
@@ -204,6 +208,25 @@ fn check_one(h: &History, c: &Check, initial_poll: Option<Option<u128>>, m: &mut
         } else {
             for (k, x) in ucs.iter().enumerate() {
                 let ok = matches!(x.delivered(), Some(r) if seg::accepted_by_cup(c.cup, r) && seg::is_2xx(r.status));
+                // the sample covers exactly this attempt: from the clock reading taken before the
+                // request was sent to the one taken after its outcome was known
+                if let Some(di) = x.deliver_idx {
+                    let start = (c.start..x.send_idx).rev().find_map(|i| match &h[i].kind {
+                        Kind::ClockRead { which, mono, .. } if which == "mono" => Some(*mono),
+                        _ => None,
+                    });
+                    let end = (di..c.end).find_map(|i| match &h[i].kind {
+                        Kind::ClockRead { which, mono, .. } if which == "mono" => Some(*mono),
+                        _ => None,
+                    });
+                    if let (Some(s0), Some(e0)) = (start, end) {
+                        m.count("R6.response_time_values");
+                        let want = (e0 - s0).max(0) as u128;
+                        if rt_ns[k] != want {
+                            m.viol(p, "R6", &site, format!("response-time metric of attempt {} is {} ns, the attempt took {} ns", k + 1, rt_ns[k], want));
+                        }
+                    }
+                }
                 if x.result.is_some() && rt[k] != ok {
                     m.viol(p, "R6", &site, format!("response-time metric of attempt {} says successful={}, the attempt's outcome was {}", k + 1, rt[k], ok));
                 }
